@@ -425,6 +425,20 @@ def innermost_loop_header(body, bb):
     return best
 
 
+def binding_loop_header(body, insp):
+    """header of the loop whose iterator step yields the inspected token (the inspection may sit in a loop nested
+    inside it: the tag fact established per token is still valid there)"""
+    subs = set(mir.subexprs(insp.base))
+    loops = sorted((len(bl), h, bl) for h, bl in body.loops().items() if insp.bb in bl)
+    for _, h, bl in loops:
+        for x in bl:
+            t = body.term(x)
+            if t["k"] == "call" and last_seg(body.callee(t)) in ("next", "next_back"):
+                if strip_sites(body.call_expr(x)) in subs:
+                    return h
+    return None
+
+
 def check_inspection(crate, insp, local_inspectors=()):
     """returns (ok, detail, npaths).  detail names an unguarded effect block."""
     body = insp.body
@@ -447,7 +461,9 @@ def check_inspection(crate, insp, local_inspectors=()):
                 effects.add(x)
     if not effects:
         return True, "no dependent effect", 0
-    start = innermost_loop_header(body, insp.bb)
+    start = binding_loop_header(body, insp)
+    if start is None:
+        start = innermost_loop_header(body, insp.bb)
     if start is None:
         start = 0
 
